@@ -1,5 +1,5 @@
 """C01: streams deliver exactly the committed samples, once, in order."""
-from vlib.engine import Harness, select
+from vlib.engine import Harness, select, fold
 from vlib.props.ringcommon import TYPES, rs_list, pre_states
 
 INFO = {
@@ -27,7 +27,7 @@ def step(tk, cap, rpos, used, op, n, core=False, pre_tags=(), ctags=(), prop="c0
     if pre_tags or ctags:
         name += "_t" + "".join(map(str, pre_tags)) + "_k" + "".join(map(str, ctags))
     call = f"crate::ring::step::<{ty}>({cap}, {rpos}, {used}, {rs_list(pre_tags)}, {OPN[op]}, {n}, {rs_list(ctags)})"
-    return Harness(name, call, unwind=cap + 3 + len(pre_tags) + len(ctags), unit=f"Buffer::{op}",
+    return Harness(name, call, unwind=max(cap + 3 + len(pre_tags) + len(ctags), 19 if tk == 'b16' else 0), unit=f"Buffer::{op}",
                    shape={"type": tk, "cap": cap, "rpos": rpos, "used": used, "op": op, "n": n,
                           "pre_tags": list(pre_tags), "commit_tags": list(ctags)}, core=core)
 
@@ -79,11 +79,11 @@ def all_harnesses():
             body = ", ".join(f"({OPN[o]}, {n}, usize::MAX)" for o, n in sc)
             nm = "".join(f"{o[0]}{n}" for o, n in sc)
             hs.append(Harness(f"c01_hist_{tk}_c{cap}_{nm}", f"crate::ring::history::<{TYPES[tk][0]}>({cap}, &[{body}])",
-                              unwind=cap + 3, unit="Buffer history",
+                              unwind=max(cap, length) + 3, unit="Buffer history",
                               shape={"type": tk, "cap": cap, "script": nm}, timeout=900,
                               core=(length == 4 and cap == 2 and i % 9 == 0)))
     return hs
 
 
 def harnesses(tier, seed):
-    return select(all_harnesses(), tier, seed, 10)
+    return fold(select(all_harnesses(), tier, seed, 10), 4)
